@@ -226,6 +226,7 @@ mutual
     | .atom "f" => some (.bool false)
     | .list [.atom "i", .atom n] => n.toInt?.map .int
     | .list [.atom "s", .atom h] => (unhex h).map .str
+    | .list [.atom "ss", .atom h] => (unhex h).map .str   -- a string marked safe
     | .list (.atom "l" :: xs) => (allSome (xs.map toVal)).map .list
     | .list (.atom "m" :: kvs) => (allSome (kvs.map toKV)).map fun ps =>
         .map (ps.foldl (fun acc kv => mapInsert kv.1 kv.2 acc) [])
@@ -275,48 +276,36 @@ def cmpName : CmpOp → String
   | .isin => "In" | .notin => "NotIn"
 
 open MJ.Compile in
-def instrStr : Instr → String
-  | .emitRaw s => s!"(EmitRaw {hexOf s})"
-  | .storeLocal x => s!"(StoreLocal {x})"
-  | .lookup x => s!"(Lookup {x})"
-  | .getAttr n => s!"(GetAttr {n})"
-  | .getItem => "(GetItem)"
-  | .loadConst v => s!"(LoadConst {valStr v})"
-  | .buildMap n => s!"(BuildMap {n})"
-  | .buildList (some n) => s!"(BuildList {n})"
-  | .buildList none => "(BuildList _)"
-  | .unpackList n => s!"(UnpackList {n})"
-  | .add => "(Add)" | .sub => "(Sub)" | .mul => "(Mul)" | .intDiv => "(IntDiv)" | .rem => "(Rem)"
-  | .neg => "(Neg)" | .eq => "(Eq)" | .ne => "(Ne)" | .gt => "(Gt)" | .gte => "(Gte)"
-  | .lt => "(Lt)" | .lte => "(Lte)" | .not => "(Not)" | .stringConcat => "(StringConcat)"
-  | .isIn => "(In)"
-  | .compareAndPreserve op => s!"(CompareAndPreserve {cmpName op})"
-  | .applyFilter name argc id => s!"(ApplyFilter {name} {argc} {id})"
-  | .performTest name argc id => s!"(PerformTest {name} {argc} {id})"
-  | .emit => "(Emit)"
-  | .pushLoop f => s!"(PushLoop {f})"
-  | .pushWith => "(PushWith)"
-  | .iterate t => s!"(Iterate {t})"
-  | .pushDidNotIterate => "(PushDidNotIterate)"
-  | .popFrame => "(PopFrame)"
-  | .popLoopFrame => "(PopLoopFrame)"
-  | .jump t => s!"(Jump {t})"
-  | .jumpIfFalse t => s!"(JumpIfFalse {t})"
-  | .jumpIfFalseOrPop t => s!"(JumpIfFalseOrPop {t})"
-  | .jumpIfTrueOrPop t => s!"(JumpIfTrueOrPop {t})"
-  | .beginCapture => "(BeginCapture Capture)"
-  | .endCapture => "(EndCapture)"
-  | .dupTop => "(DupTop)"
-  | .discardTop => "(DiscardTop)"
-  | .swap => "(Swap)"
-  | .buildKwargs n => s!"(BuildKwargs {n})"
-  | .callFunction name argc => s!"(CallFunction {name} {argc})"
-  | .callObject argc => s!"(CallObject {argc})"
-  | .isUndefined => "(IsUndefined)"
-  | .return_ => "(Return)"
-  | .enclose x => s!"(Enclose {x})"
-  | .getClosure => "(GetClosure)"
-  | .buildMacro name offset flags => s!"(BuildMacro {name} {offset} {flags})"
+/-- the arguments of an instruction in the notation of the harness -/
+def instrArgs : Instr → String
+  | .emitRaw s => s!" {hexOf s}"
+  | .storeLocal x => s!" {x}"
+  | .lookup x => s!" {x}"
+  | .getAttr n => s!" {n}"
+  | .loadConst v => s!" {valStr v}"
+  | .buildMap n => s!" {n}"
+  | .buildList (some n) => s!" {n}"
+  | .buildList none => " _"
+  | .unpackList n => s!" {n}"
+  | .compareAndPreserve op => s!" {cmpName op}"
+  | .applyFilter name argc id => s!" {name} {argc} {id}"
+  | .performTest name argc id => s!" {name} {argc} {id}"
+  | .pushLoop f => s!" {f}"
+  | .iterate t => s!" {t}"
+  | .jump t => s!" {t}"
+  | .jumpIfFalse t => s!" {t}"
+  | .jumpIfFalseOrPop t => s!" {t}"
+  | .jumpIfTrueOrPop t => s!" {t}"
+  | .beginCapture => " Capture"
+  | .buildKwargs n => s!" {n}"
+  | .callFunction name argc => s!" {name} {argc}"
+  | .callObject argc => s!" {argc}"
+  | .enclose x => s!" {x}"
+  | .buildMacro name offset flags => s!" {name} {offset} {flags}"
+  | _ => ""
+
+open MJ.Compile in
+def instrStr (i : Instr) : String := s!"({i.opName}{instrArgs i})"
 
 def codeStr (prog : List Stmt) : String :=
   match MJ.Compile.compileTemplate prog with
@@ -333,7 +322,7 @@ structure Case where
 def toCase : SExp → Option Case
   | .list [.atom "wrap", .atom kind, p, t] =>
     match toBlock p, toBlock t with
-    | some p, some t => some { prog := p, tail := t, discard := !(kind == "include" || kind == "expr") }
+    | some p, some t => some { prog := p, tail := t, discard := ["child", "from", "import", "block", "macro"].contains kind }
     | _, _ => none
   | x => (toBlock x).map fun p => { prog := p }
 
